@@ -37,6 +37,7 @@ Step(e) ==
          /\ Check(e.ot_t = <<loc[2], loc[3]>> /\ e.ot_off = e.v.off, "to_offset_time_keeps_time_offset")
          /\ Check(Same(e.recombined_at, Val(e.v)) /\ Same(e.recombined_on, Val(e.v)), "offset_date_at_time_and_offset_time_on_date_recombine")
          /\ Check(Same(e.fixed_zone, Val(e.v)), "in_fixed_zone_keeps_everything")
+         /\ Check(e.fixed_zone_offset = e.v.off /\ Same(e.fixed_zone_plus_zero, Val(e.v)), "fixed_zone_has_the_offset_of_the_value")
     [] e.op = "zoned" ->
          \* instant rendered in a zone: the offset is the wall offset of the zone interval containing the instant
          LET iv == [start |-> e.iv.start, end |-> e.iv.end, name |-> "", wall |-> e.iv.wall, std |-> 0, sav |-> 0] IN
